@@ -47,7 +47,7 @@ func (e *enumRun) do(data []byte, how string) {
 	var out outcome
 	stats.TryT(e.t, e.name, c, func() error {
 		var err error
-		out, err = checkData(e.family, data, evalOpts{measure: measure})
+		out, err = checkData(e.family, data, evalOpts{measure: measure, deep: isQuad(e.family, how)})
 		return err
 	})
 	for _, why := range out.skipWhy {
@@ -516,6 +516,14 @@ func witnesses() []witness {
 			body = pw.buf
 		}
 		w = append(w, witness{"mvt", body, fmt.Sprintf("field-3 nesting depth %d", d)})
+	}
+	// seeded change C05d: every level of a collection chain claims as many members as would still fit
+	for _, d := range []int{1000, 2000, 4000} {
+		var chain []byte
+		for k := 0; k < d; k++ {
+			chain = append(chain, wkbHeader(true, 7, uint32(d-1-k))...)
+		}
+		w = append(w, witness{"wkb", chain, fmt.Sprintf("collection chain depth %d, every count = remaining/9", d)})
 	}
 	// long flat inputs
 	w = append(w,
